@@ -82,7 +82,8 @@ def gen_case(r, cid, source, chain, lens, big=False):
         term = "red:" + op
     elif term == "ci":
         old = [r.randrange(0, 50) for _ in range(r.choice([0, 1, 3, 9]))]
-        term = "ci:%s:%s" % (r.choice("vsf"), "/".join(map(str, old)) if old else "-")
+        # targets: Vec, SplitVec, full FixedVec, FixedVec with spare room, Vec with some spare capacity
+        term = "ci:%s:%s" % (r.choice("vsfgw"), "/".join(map(str, old)) if old else "-")
     elif term in ("find", "findix", "any", "all"):
         term = term + ":" + rnd_filf(r)
     lead = ["N:%d" % nt1, "%s:%d" % cs1]
@@ -148,7 +149,7 @@ def corner_case(r, cid, source, chain, term, nt, cs, n, design, trail=True):
         elif s == "F":
             stages.append({"prefix": "Fg:%d" % half, "suffix": "Fl:%d" % half, "alt": "F:2:1"}[design])
         elif s == "X":
-            stages.append(r.choice(["X:2:1000", "Xm:3", "X:1:0"]))
+            stages.append(["X:2:1000", "Xm:3", "X:1:0"][cid % 3])
         else:
             stages.append({"prefix": "O:2:1:1:0", "suffix": "O:3:0:1:0", "alt": "O:2:0:1:0"}[design])
     kind, opaque, eager = gen_harness.analyse(chain)
@@ -159,14 +160,22 @@ def corner_case(r, cid, source, chain, term, nt, cs, n, design, trail=True):
     if term == "red":
         term = "red:" + ("min" if ty != "val" else r.choice(["add", "min", "xor"]))
     elif term == "ci":
-        term = "ci:%s:%s" % (r.choice("vsf"), "7/8/9")
+        term = "ci:%s:%s" % ("vsfgw"[cid % 5], "7/8/9")
+    elif term.startswith("ci:"):
+        pass
     elif term in ("minkey", "maxkey"):
         term = term + ":3"
     elif term in ("find", "findix", "any"):
         term = term + ":" + r.choice(["Fg:%d" % half, "Fa", "F:3:2"])
     elif term == "all":
         term = "all:" + r.choice(["Fl:%d" % half, "Fa"])
-    ops = ["N:%d" % nt, "%s:%d" % cs] + stages + (["%s:%d" % cs, "N:%d" % nt] if trail else [])
+    lead = ["N:%d" % nt, "%s:%d" % cs]
+    trailing = ["%s:%d" % cs, "N:%d" % nt] if trail else []
+    if cid % 2:
+        trailing.reverse()             # both orders of the two setters occur on every shape
+    if cid % 4 == 3:
+        lead.reverse()
+    ops = lead + stages + trailing
     known = 1 if gen_harness.SOURCES[source][2] else 0
     return "id=%d shape=%s known=%d in=%s ops=%s term=%s avail=%d sched=%s fuel=100000" % (
         cid, gen_harness.shape_name(source, chain), known, ",".join(map(str, inp)) if inp else "-",
@@ -197,6 +206,13 @@ def gen_cases(tier, seed, shapes=None, per_shape=None):
             ls = lens if k % 8 else [100, 257, 1000]
             cases.append(gen_case(r, cid, src, ch, ls))
             cid += 1
+        # collect_into a target that already holds elements, with enough new ones to need growth
+        # (SplitVec fragments, FixedVec/Vec spare room smaller than the output)
+        if src in ("vec", "iterx", "iteru", "slice") and ch in ("M", "F", "X", "O", "MF"):
+            for tg in "svfgw":
+                for n_ in [60, 130]:
+                    cases.append(corner_case(r, cid, src, ch, "ci:%s:1/2/3/4/5/6/7/8/9" % tg, 4, ("C", 3), n_, "alt"))
+                    cid += 1
         # by-key extrema with certain ties, sequentially and in parallel (ascending input, key = value mod 3)
         if src in ("vec", "slice", "iterx") and len(ch) <= 1 and "X" not in ch:
             for term in ["maxkey", "minkey"]:
